@@ -135,6 +135,9 @@ def gen_case(rng):
         "patterns": patterns,
         "envcfg": envcfg,
         "envvars": envvars,
+        # two-stage parsing: after this many add_argument calls the runner makes a warm-up parse of the environment,
+        # then adds the remaining arguments (anything the parser caches about its arguments at the first parse shows)
+        "stage_at": rng.randint(1, nk - 1) if nk > 1 and rng.random() < 0.25 else None,
     }
     r = rng.random()
     if r < 0.55:
